@@ -395,18 +395,19 @@ def scan (sup : Compound → Compound → Complex → Bool) (c1 : Compound) :
 /-- The index walk of `ComplexSelector::is_super_selector` (complex.rs:149–247) on the suffixes
     `a = self[i1..]`, `b = other[i2..]`.  `prev` is the combinator of `self` before `a`.
     `asFound = true` is the code as it stands; `asFound = false` adds `okSkip`. -/
-def walk (asFound : Bool) (sup : Compound → Compound → Complex → Bool) :
-    Option Rel → Complex → Complex → Bool
-  | _, [], _ => false
-  | _, .comb _ :: _, _ => false
-  | prev, [.compound c1], b =>
+def walk (asFound : Bool) (sup : Compound → Compound → Complex → Bool)
+    (prev : Option Rel) (a b : Complex) : Bool :=
+  match a with
+  | [] => false
+  | .comb _ :: _ => false
+  | [.compound c1] =>
     match b with
     | .compound _ :: _ =>
       match b.getLast? with
       | some (.compound d) => (asFound || okSkip prev b.dropLast) && sup c1 d b.dropLast
       | _ => false
     | _ => false
-  | prev, .compound c1 :: .comb cb1 :: a', b =>
+  | .compound c1 :: .comb cb1 :: a' =>
     if a'.length + 2 > b.length then false else
     match b with
     | .compound _ :: _ =>
@@ -421,8 +422,8 @@ def walk (asFound : Bool) (sup : Compound → Compound → Complex → Bool) :
           else walk asFound sup (some cb1.rel) a' brest'
         | _ => false
     | _ => false
-  | prev, .compound c1 :: arest@(.compound _ :: _), b =>
-    if arest.length + 1 > b.length then false else
+  | .compound c1 :: .compound c2 :: a'' =>
+    if a''.length + 2 > b.length then false else
     match b with
     | .compound _ :: _ =>
       match scan sup c1 [] b with
@@ -431,9 +432,10 @@ def walk (asFound : Bool) (sup : Compound → Compound → Complex → Bool) :
         if !(asFound || okSkip prev sk) then false else
         match brest with
         | .comb cb2 :: brest' =>
-          if cb2 ≠ .child then false else walk asFound sup (some .desc) arest brest'
-        | _ => walk asFound sup (some .desc) arest brest
+          if cb2 ≠ .child then false else walk asFound sup (some .desc) (.compound c2 :: a'') brest'
+        | _ => walk asFound sup (some .desc) (.compound c2 :: a'') brest
     | _ => false
+termination_by structural a
 
 /-- compound superselector without selector pseudos on the left (compound.rs:69 with the
     `Pseudo{selector: Some}` arm never taken) -/
